@@ -31,7 +31,7 @@ RULE = ('designed networks whose OMS differ in amplifier bands: shipped multiban
         ' Also lines that end on a transceiver: point-to-point links without ROADMs (some without any amplifier) and a transceiver attached to a ROADM through a line.')
 ASSUMPTIONS = ['the slots within one grid step (6.25 GHz) of a band edge are not judged',
                'amplifier bands are read from the loaded library']
-REQUIRED_COUNTERS = {'networks_mixing_band_plans': 10, 'stock_tests_run': 5, 'stock_bitmap_invariant_evaluations': 500, 'oms_lists_built': 20, 'oms_checked': 100, 'bitmap_invariant_evaluations': 200,
+REQUIRED_COUNTERS = {'oms_lists_rebuilt_after_extension': 10, 'networks_mixing_band_plans': 10, 'stock_tests_run': 5, 'stock_bitmap_invariant_evaluations': 500, 'oms_lists_built': 20, 'oms_checked': 100, 'bitmap_invariant_evaluations': 200,
                      'band_marking_checks': 100, 'alignment_sets': 20, 'networks_with_different_bands': 8}
 CASE_TIMEOUT = {'quick': 400, 'thorough': 1800}
 FREE, OCC, UNU = BitmapValue.FREE, BitmapValue.OCCUPIED, BitmapValue.UNUSABLE
@@ -374,6 +374,26 @@ def run_network(case, ctx):
         ctx.count('networks_with_different_bands')
         ctx.nontrivial((kind, P.digest(scen['tj'])))
     ctx.cls(f'net:{kind}', f'distinct_bands:{nd}')
+    if kind in ('narrow', 'offgrid') and not ctx.violations and rng.random() < 0.5 and \
+            any(e['type'] == 'Roadm' for e in scen['tj']['elements']):
+        # history: the designed network object grows by one site (new links on an existing ROADM), is designed again and
+        # the OMS list is built a second time on the same objects: whatever the first build left on the nodes must not
+        # decide the second pairing
+        from vf.props.c08 import extend_network
+        tj2 = extend_network(rng, scen['tj'], scen['equipment'], scen['network'])
+        try:
+            G.design(scen['equipment'], scen['network'])
+            _WALK['limit'] = scen['network'].number_of_nodes() + 2
+            oms2 = build_oms_list(scen['network'], scen['equipment'])
+        except (NetworkTopologyError, ConfigurationError, SpectrumError) as e:
+            ctx.skip(f'second-build-after-extension:{type(e).__name__}')
+            oms2 = None
+        if oms2 is not None:
+            ctx.count('oms_lists_rebuilt_after_extension')
+            before = len(ctx.violations)
+            check_oms_list(ctx, scen['network'], scen['equipment'], oms2, kind + '+extended')
+            if len(ctx.violations) > before:
+                ctx.dump.update({'topology_after_extension': tj2})
     if not ctx.samples:
         o = oms_list[0]
         ctx.sample({'kind': kind, 'oms': len(oms_list), 'n_min': o.spectrum_bitmap.n_min, 'n_max': o.spectrum_bitmap.n_max,
